@@ -294,6 +294,23 @@ def rounds(ctx, F, builds):
         return out
     with ThreadPoolExecutor(max_workers=min(3, len(builds))) as ex:
         res = list(ex.map(per_build, enumerate(builds)))
+    # cross-configuration agreement: signatures made by the first build are presented to every other build
+    r3 = random.Random(ctx.seed * 31 + 5)
+    pool = [c for c in res[0][0] if c.cv.m <= 256]
+    picks = r3.sample(pool, min(len(pool), 12 if ctx.quick else 48))
+    def cross(b):
+        lines = ["verify %s %s %s %s %s %s %s -" % (c.cv.name, c.alg[0], c.order, hx(c.hash), hx(c.r), hx(c.s), hx(c.packed)) for c in picks]
+        n = 0
+        for ln, c, a in zip(lines, picks, R.run_lines(b, lines)):
+            if isinstance(a, dict): crash_key(F, "ecdsa_verify_" + c.order, b, ln, a); continue
+            n += 1
+            if kvs(a)["rc"] != "0":
+                F.add("ecdsa_verify_%s:%s:rejects-signature-of-another-configuration" % (c.order, c.alg),
+                      "build %s\ncase %s\n%s\nsigned by build %s: %s" % (b.name, ln, a, builds[0].name, c.sign_line), {"case": ln, "build": b.name})
+        return n
+    with ThreadPoolExecutor(max_workers=min(3, len(builds))) as ex:
+        ncross = sum(ex.map(cross, builds[1:]))
+    ctx.add(cross_configuration_verifications=ncross)
     return dict(res=res, ncurves=len(curves), t0=t0)
 
 def finish(ctx, F, st):
